@@ -149,3 +149,37 @@ FIELD_PLACEMENT: dict[str, dict[str, str]] = {
     "RequestDownloadResponse": _XFER, "RequestUploadResponse": _XFER,
     "TransferDataResponse": {"block_sequence_counter": "bits<pdu[1].7..0>"},
 }
+
+
+# --------------------------------------------------------------------------- negative response codes (ISO 14229-1:2020, Table A.1)
+NRC: dict[str, int] = {
+    "generalReject": 0x10, "serviceNotSupported": 0x11, "subFunctionNotSupported": 0x12, "incorrectMessageLengthOrInvalidFormat": 0x13,
+    "responseTooLong": 0x14, "busyRepeatRequest": 0x21, "conditionsNotCorrect": 0x22, "requestSequenceError": 0x24,
+    "noResponseFromSubnetComponent": 0x25, "failurePreventsExecutionOfRequestedAction": 0x26, "requestOutOfRange": 0x31,
+    "securityAccessDenied": 0x33, "authenticationRequired": 0x34, "invalidKey": 0x35, "exceededNumberOfAttempts": 0x36,
+    "requiredTimeDelayNotExpired": 0x37, "secureDataTransmissionRequired": 0x38, "secureDataTransmissionNotAllowed": 0x39,
+    "secureDataVerificationFailed": 0x3A,
+    "certificateVerificationFailedInvalidTimePeriod": 0x50, "certificateVerificationFailedInvalidSignature": 0x51,
+    "certificateVerificationFailedInvalidChainOfTrust": 0x52, "certificateVerificationFailedInvalidType": 0x53,
+    "certificateVerificationFailedInvalidFormat": 0x54, "certificateVerificationFailedInvalidContent": 0x55,
+    "certificateVerificationFailedInvalidScope": 0x56, "certificateVerificationFailedInvalidCertificateRevoked": 0x57,
+    "ownershipVerificationFailed": 0x58, "challengeCalculationFailed": 0x59, "settingAccessRightsFailed": 0x5A,
+    "sessionKeyCreationOrDerivationFailed": 0x5B, "configurationDataUsageFailed": 0x5C, "deAuthenticationFailed": 0x5D,
+    "uploadDownloadNotAccepted": 0x70, "transferDataSuspended": 0x71, "generalProgrammingFailure": 0x72, "wrongBlockSequenceCounter": 0x73,
+    "requestCorrectlyReceivedResponsePending": 0x78, "subFunctionNotSupportedInActiveSession": 0x7E, "serviceNotSupportedInActiveSession": 0x7F,
+    "rpmTooHigh": 0x81, "rpmTooLow": 0x82, "engineIsRunning": 0x83, "engineIsNotRunning": 0x84, "engineRunTimeTooLow": 0x85,
+    "temperatureTooHigh": 0x86, "temperatureTooLow": 0x87, "vehicleSpeedTooHigh": 0x88, "vehicleSpeedTooLow": 0x89,
+    "throttlePedalTooHigh": 0x8A, "throttlePedalTooLow": 0x8B, "transmissionRangeNotInNeutral": 0x8C, "transmissionRangeNotInGear": 0x8D,
+    "brakeSwitchNotClosed": 0x8F, "shifterLeverNotInPark": 0x90, "torqueConverterClutchLocked": 0x91, "voltageTooHigh": 0x92,
+    "voltageTooLow": 0x93, "resourceTemporarilyNotAvailable": 0x94,
+}
+# diagnostic service identifiers (ISO 14229-1:2020, Table 2 and clause 10..15)
+SERVICE_IDS: dict[str, int] = {
+    "DiagnosticSessionControl": 0x10, "EcuReset": 0x11, "ClearDiagnosticInformation": 0x14, "ReadDTCInformation": 0x19,
+    "ReadDataByIdentifier": 0x22, "ReadMemoryByAddress": 0x23, "ReadScalingDataByIdentifier": 0x24, "SecurityAccess": 0x27,
+    "CommunicationControl": 0x28, "Authentication": 0x29, "ReadDataByPeriodicIdentifier": 0x2A, "DynamicallyDefineDataIdentifier": 0x2C,
+    "WriteDataByIdentifier": 0x2E, "InputOutputControlByIdentifier": 0x2F, "RoutineControl": 0x31, "RequestDownload": 0x34,
+    "RequestUpload": 0x35, "TransferData": 0x36, "RequestTransferExit": 0x37, "RequestFileTransfer": 0x38, "WriteMemoryByAddress": 0x3D,
+    "TesterPresent": 0x3E, "NegativeResponse": 0x7F, "AccessTimingParameter": 0x83, "SecuredDataTransmission": 0x84,
+    "ControlDTCSetting": 0x85, "ResponseOnEvent": 0x86, "LinkControl": 0x87,
+}
